@@ -942,11 +942,7 @@ class Unit:
     @classmethod
     def define(cls, dimension: Dimension, name: str, symbol: str) -> "Unit":
         """Defines a new base unit"""
-        if name in cls._by_name:
-            raise ValueError(f"A unit named {name} is already defined")
-
-        if symbol in cls._by_symbol:
-            raise ValueError(f"A unit with symbol {symbol} is already defined")
+        cls._check_alias(None, name, symbol)
 
         unit = cls(IdentityPrefix, {}, dimension, name, symbol)
         cls._base.add(unit)
@@ -989,22 +985,31 @@ class Unit:
             raise ValueError("No need to define conversions for a unit and itself")
         conversions.equate(1 * self, other)
 
+    @classmethod
+    def _check_alias(
+        cls, unit: Optional["Unit"], name: Optional[str], symbol: Optional[str]
+    ) -> None:
+        """Raises if the name or symbol cannot be given to the unit (`None` for a unit
+        that is yet to be created), without registering anything"""
+        if name and name in cls._by_name and cls._by_name[name] is not unit:
+            raise ValueError(f"A unit named {name} is already defined")
+
+        if symbol:
+            if symbol in cls._by_symbol and cls._by_symbol[symbol] is not unit:
+                raise ValueError(f"A unit with symbol {symbol} is already defined")
+
+            if " " in symbol:
+                raise ValueError(f"{symbol!r} will not be parsable if it has spaces.")
+
     def alias(self, name: Optional[str] = None, symbol: Optional[str] = None) -> None:
         """Adds an alternative name and/or symbol to the unit"""
-        if name:
-            if name in self._by_name and self._by_name[name] is not self:
-                raise ValueError(f"A unit named {name} is already defined")
+        self._check_alias(self, name, symbol)
 
+        if name:
             self.names = self.names + (name,)
             self._by_name[name] = self
 
         if symbol:
-            if symbol in self._by_symbol and self._by_symbol[symbol] is not self:
-                raise ValueError(f"A unit with symbol {symbol} is already defined")
-
-            if symbol and " " in symbol:
-                raise ValueError(f"{symbol!r} will not be parsable if it has spaces.")
-
             self.symbols = self.symbols + (symbol,)
             self._by_symbol[symbol] = self
 
